@@ -309,6 +309,33 @@ theorem report_before_unwrap_cex :
     reportedBeforeUnwrap (.wrapped .conflict) = .commit ∧ (FsmAnswer.wrapped .conflict).verdict = .conflict := by
   decide
 
+/-! ### local snapshot persist -/
+
+/-- **A local snapshot never changes what a replica is**: raft persists the snapshot taken at an earlier position
+(`idx ≤ latest`) while the FSM has moved on; witnessing it leaves the replica — data, index, tracker, configuration —
+exactly as it was, so every theorem above about schedules of `batch`/`restart`/`snap` holds unchanged with local
+snapshots interleaved anywhere. -/
+theorem local_snapshot_persist_is_identity (r : Replica) (idx : Nat) (h : idx ≤ r.latest) : r.witness idx = r := by
+  unfold Replica.witness
+  rw [if_neg (by omega)]
+
+/-- the index of a replica never moves backwards through `witness`, whatever index is witnessed -/
+theorem witness_latest_monotone (r : Replica) (idx : Nat) : r.latest ≤ (r.witness idx).latest := by
+  unfold Replica.witness
+  split <;> simp <;> omega
+
+/-- **Finding F60 (repaired)**: with the witnessed index stored unconditionally, the replica that persisted its local
+snapshot of position 1 after applying index 2 is back at index 1 = the start index of the transaction at index 3:
+`canFastWrite` holds, every verification is skipped and the transaction commits — the replica that took no snapshot
+rejects it. Same log, same batching, no restart, no snapshot install; the tracker still holds the conflicting write. -/
+theorem snapshot_persist_regress_cex :
+    let a := (applyBatch (fun _ => true) Replica.fresh (logF1.take 2)).1
+    let b := a.witnessRegress 1
+    (applyBatch (fun _ => true) a (logF1.drop 2)).2 = [.conflict] ∧
+    (applyBatch (fun _ => true) b (logF1.drop 2)).2 = [.commit] ∧
+    b.tracker = a.tracker ∧
+    (applyBatch (fun _ => true) (a.witness 1) (logF1.drop 2)).2 = [.conflict] := by decide
+
 /-! ### chunked entries -/
 
 open Obao.RaftChunk in
